@@ -226,3 +226,17 @@ func obfs4Flight(secret []byte) []byte {
 }
 
 func fmtCuts(c []int) string { return fmt.Sprint(c) }
+
+// replayCase returns the case id stored in a replay file ("" when not replaying); the enumeration is then
+// run unsharded and every other case is skipped.
+func replayCase(a *vh.Args) string {
+	if a.Replay == "" {
+		return ""
+	}
+	a.ShardI, a.ShardN = 0, 1
+	id, _ := vh.LoadReplay(a.Replay)["case"].(string)
+	if id == "" {
+		vh.Fatal("replay file has no case id")
+	}
+	return id
+}
